@@ -41,7 +41,9 @@ OPS = [
 READ_OPS = [c for c in OPS if c["op"] in ("get", "gets", "gat", "gats", "get_many", "gets_many")]
 
 MUTATIONS = ["valid", "error-line", "server-error", "garbage-line", "wrong-key", "non-numeric-size", "truncate-eof", "truncate-timeout", "extra-crlf-garbage",
-             "client-error-format", "client-error-exptime", "client-error-chunk", "server-error-large"]
+             "client-error-format", "client-error-exptime", "client-error-chunk", "server-error-large",
+             # a VALUE line of the wrong FORM for the command that was sent: a cas-less line for gets/gats (a proxy without cas support), a token too many for get/gat
+             "value-missing-cas", "value-extra-token"]
 ERROR_LINES = {"client-error-format": b"CLIENT_ERROR bad command line format", "client-error-exptime": b"CLIENT_ERROR invalid exptime argument",
                "client-error-chunk": b"CLIENT_ERROR bad data chunk", "server-error-large": b"SERVER_ERROR object too large for cache"}
 FAULT_KINDS = ["timeout", "reset", "oserror", "eof"]
@@ -68,6 +70,16 @@ def mutate(reply, how, rng):
         p = reply.split(b"\r\n", 1)
         f = p[0].split(b" ")
         f[3] = b"x1"
+        return b" ".join(f) + b"\r\n" + p[1], None
+    if how in ("value-missing-cas", "value-extra-token") and reply.startswith(b"VALUE "):
+        p = reply.split(b"\r\n", 1)
+        f = p[0].split(b" ")
+        if how == "value-missing-cas":
+            if len(f) != 5:
+                return reply, None
+            f = f[:4]
+        else:
+            f = f + [b"99"]
         return b" ".join(f) + b"\r\n" + p[1], None
     if how in ("truncate-eof", "truncate-timeout"):
         cut = rng.randrange(0, len(reply))
@@ -103,6 +115,7 @@ class Scripted:
         self.script = {}         # settings for the current call
         self.pushed = []         # events pushed during the current call (for the Lean model)
         self.exchange = 0
+        self.n_altered = 0
 
     def server_for(self, conn):
         key = conn.addr if conn.addr is not None else "unix"
@@ -123,6 +136,8 @@ class Scripted:
             evs = chunk(reply, self.rng, sc.get("chunk", "rand"))
         else:
             body, tail = mutate(reply, sc.get("mutation", "valid"), self.rng)
+            if body != reply:
+                self.n_altered += 1          # the adversary really changed what the server said (a mutation that does not apply leaves the reply alone)
             evs = chunk(body, self.rng, sc.get("chunk", "rand"))
             if tail is not None:
                 evs.append(tail)
@@ -140,6 +155,7 @@ class Scripted:
         self.script = script
         self.pushed = []
         self.exchange = 0
+        self.n_altered = 0
         plan = {}
         if script.get("connect_fault"):
             cfv = script["connect_fault"]
